@@ -28,6 +28,7 @@ EXPLANATION = (
     "precedes case folding. parse_type/line_to_variables decomposition and argument matching are not "
     "decided."
     ' R5: in parse_type each slot of a character selector (len, kind) is filled at most once and the selector list is split at top-level commas only. R2 also requires every lookup key of the name-keyed attribute tables (attr_dict, param_dict) to be lower-cased, and treats the table content as lower-case only because every value recorded into it is verified to be lower-cased at the recording site.'
+    " Added after waves 6/7 - every spelling of a two-word type keyword that the recogniser accepts is included in the language of a normaliser; templates compare entity names case-insensitively; initial values are not rewritten after their literals were put back."
 )
 ASSUMPTIONS = ["reference languages in sa/specs/statements.py transcribe F2008 statement syntax with expressions abstracted to parenthesis-free text",
                "extra_vartypes is empty when VARIABLE_RE is instantiated"]
@@ -295,6 +296,16 @@ def _lowered(py, fn, e: ast.AST, depth=0) -> bool:
             v = _param_lowered(py, fn, e.id, depth)
             if v is not None:
                 return v
+            # a module-level table: as lower-case as the string constants it holds
+            modname = py.module_of(fn) if not isinstance(fn, ast.Module) else None
+            tree = py.modules.get(modname) if modname else None
+            if tree is not None:
+                for st in tree.body:
+                    tg = st.targets[0] if isinstance(st, ast.Assign) and len(st.targets) == 1 else (st.target if isinstance(st, ast.AnnAssign) else None)
+                    if isinstance(tg, ast.Name) and tg.id == e.id and getattr(st, "value", None) is not None and \
+                            isinstance(st.value, (ast.Tuple, ast.List, ast.Dict, ast.Set)):
+                        strs = [c.value for c in ast.walk(st.value) if isinstance(c, ast.Constant) and isinstance(c.value, str)]
+                        return bool(strs) and all(x == x.lower() for x in strs)
         def empty_container(d) -> bool:
             return (isinstance(d, (ast.List, ast.Set, ast.Tuple)) and not d.elts) or (isinstance(d, ast.Dict) and not d.keys) or \
                 (isinstance(d, ast.Call) and call_name(d) in ("set", "list") and not d.args)
@@ -320,6 +331,13 @@ def _lowered(py, fn, e: ast.AST, depth=0) -> bool:
                 _VISITING.discard(key)
     if isinstance(e, ast.BinOp) and isinstance(e.op, ast.Add):
         return _lowered(py, fn, e.left, depth + 1) and _lowered(py, fn, e.right, depth + 1)
+    if isinstance(e, (ast.Tuple, ast.List, ast.Set)) and e.elts:
+        # a literal table (possibly of rows): as lower-case as its string constants; non-string members (compiled patterns,
+        # numbers) do not take part in keyword comparisons
+        strs = [c.value for c in ast.walk(e) if isinstance(c, ast.Constant) and isinstance(c.value, str)]
+        others = [x for x in ast.walk(e) if isinstance(x, (ast.Call, ast.Subscript, ast.Attribute))]
+        if strs and not others:
+            return all(x == x.lower() for x in strs)
     if isinstance(e, ast.Call) and isinstance(e.func, ast.Attribute) and e.func.attr == "sub" and len(e.args) >= 2:
         # `REGEX.sub(replacement, text)`: outside the replaced pieces the result is `text`
         return _lowered(py, fn, e.args[1], depth + 1)
@@ -630,31 +648,44 @@ def r5_character_slots(ctx, rep):
     if not loops:
         raise AnalysisError("parse_type: loop over the character selector not found")
     n = 0
-    for st in ast.walk(loops[0]):
-        if isinstance(st, ast.Assign) and ast.unparse(st.targets[0]) in ("length", "kind") and st in [
-                x for b in ast.walk(loops[0]) if isinstance(b, ast.If) for x in b.body]:
-            slot = ast.unparse(st.targets[0])
-            # skip re-normalisation of an already chosen value (kind = QUOTES_RE.sub(...kind))
-            if re.search(r"\b%s\b" % slot, ast.unparse(st.value)) and "group" not in ast.unparse(st.value):
-                continue
-            n += 1
-            p = st
-            guarded = False
-            while p is not loops[0]:
-                child = p
-                p = py.parents[p]
-                if isinstance(p, ast.If) and child in p.body and f"{slot} is None" in ast.unparse(p.test):
-                    guarded = True
-            rep.ob(f"parse_type: `{ast.unparse(st)[:50]}` fills an empty slot", guarded,
-                   f"guarded by `{slot} is None`" if guarded else
-                   f"`{ast.unparse(st)[:60]}` can overwrite a {slot} that was already set: in `character(10, 4)` the "
-                   f"positional kind 4 matches the length pattern and replaces the length", py.nloc(st))
-    if n < 4:
+    # every store into one of the two slots inside the scan happens on a path on which that slot is still empty - decided on the
+    # path conditions, so `if length is None and m:`, nested ifs, elif chains and else branches are treated alike
+    for e in astq.trace_block(loops[0].body, fn):
+        if e.kind != "assign" or e.target not in ("length", "kind") or e.value is None:
+            continue
+        slot = e.target
+        # skip re-normalisation of an already chosen value (kind = restore(kind))
+        if re.search(r"\b%s\b" % slot, ast.unparse(e.value)) and "group" not in ast.unparse(e.value):
+            continue
+        n += 1
+
+        def atom(t, slot=slot):
+            if isinstance(t, ast.Compare) and len(t.ops) == 1 and ast.unparse(t.left) == slot and \
+                    isinstance(t.comparators[0], ast.Constant) and t.comparators[0].value is None:
+                return ("empty", isinstance(t.ops[0], ast.Is))
+            if isinstance(t, ast.Name) and t.id == slot:
+                return ("empty", False)
+            return None
+        guarded = astq.path_implies(e, atom, {"empty": True}) is True
+        rep.ob(f"parse_type: `{ast.unparse(e.node)[:50]}` fills an empty slot", guarded,
+               f"only reached while `{slot} is None`" if guarded else
+               f"`{ast.unparse(e.node)[:60]}` can overwrite a {slot} that was already set: in `character(10, 4)` the "
+               f"positional kind 4 matches the length pattern and replaces the length", py.nloc(e.node))
+    if n < 3:
         raise AnalysisError(f"parse_type: only {n} slot assignments found")
     ok = any(isinstance(i, ast.If) and isinstance(i.test, ast.Compare) and isinstance(i.test.ops[0], ast.Is)
              and ast.unparse(i.test.left) == "length" and any(
                  isinstance(a, ast.Assign) and ast.unparse(a.targets[0]) == "length" and isinstance(a.value, ast.Constant)
                  and str(a.value.value) == "1" for a in i.body) for i in ast.walk(fn))
+    if not ok:
+        # the same default written as an expression: `"1" if length is None else length`, `length or "1"`
+        for x in ast.walk(fn):
+            if isinstance(x, ast.IfExp) and "length" in ast.unparse(x.test) and "None" in ast.unparse(x.test) and any(
+                    isinstance(b, ast.Constant) and str(b.value) == "1" for b in (x.body, x.orelse)):
+                ok = True
+            if isinstance(x, ast.BoolOp) and isinstance(x.op, ast.Or) and ast.unparse(x.values[0]) == "length" and \
+                    isinstance(x.values[-1], ast.Constant) and str(x.values[-1].value) == "1":
+                ok = True
     rep.ob("parse_type: default character length is 1", ok, "a missing length is filled with 1", py.nloc(fn), nontrivial=False)
 
 
@@ -802,18 +833,22 @@ def r11_two_word_types(ctx, rep):
     if not isinstance(vts, str):
         raise AnalysisError("sourceform.VAR_TYPE_STRING is not a constant string")
     alts = [a.lstrip("^") for a in vts.split("|") if "\\s" in a or " " in a]
-    pt = py.func("sourceform.parse_type")
-    # normalisers: regexes matched against the recognised type name whose success assigns a constant name
+    pt = py.ifunc("sourceform.parse_type")     # canonical form: a table-driven loop over (regex, name) pairs is unrolled
+    # normalisers: regular expressions that parse_type consults (directly, or through a module-level table it iterates) and whose
+    # pattern spells a two-word type
     norm: List[Tuple[str, str, int]] = []
-    for st in ast.walk(pt):
-        if isinstance(st, ast.If) and any(isinstance(x, ast.Assign) and isinstance(x.value, ast.Constant) and isinstance(x.value.value, str)
-                                          for x in st.body):
-            for c in ast.walk(st.test):
-                if isinstance(c, ast.Call) and isinstance(c.func, ast.Attribute) and c.func.attr in ("match", "fullmatch", "search"):
-                    nm = ast.unparse(c.func.value).split(".")[-1]
-                    for key, (pat, flags, _node, mod) in ctx.regexes.items():
-                        if key.split(".")[-1] == nm and mod == "sourceform":
-                            norm.append((nm, pat, flags))
+    reach = {x.id for x in ast.walk(pt) if isinstance(x, ast.Name)}
+    tree = py.modules["sourceform"]
+    for _ in range(2):
+        for st in tree.body:
+            if isinstance(st, (ast.Assign, ast.AnnAssign)):
+                tg = st.targets[0] if isinstance(st, ast.Assign) else st.target
+                if isinstance(tg, ast.Name) and tg.id in reach and st.value is not None:
+                    reach |= {x.id for x in ast.walk(st.value) if isinstance(x, ast.Name)}
+    for key, (pat, flags, _node, mod) in ctx.regexes.items():
+        nm = key.split(".")[-1]
+        if mod == "sourceform" and nm in reach and key.startswith("sourceform.") and re.search(r"double", pat, re.I) and nm != "VAR_TYPE_STRING":
+            norm.append((nm, pat, flags))
     if not alts or not norm:
         raise AnalysisError(f"two-word type alternatives {alts} / normalisers {[n for n, _p, _f in norm]} not found")
     for a in alts:
@@ -865,6 +900,13 @@ def r12_template_name_comparisons(ctx, rep):
         raise AnalysisError("no comparison of two entity names found in the templates")
 
 
+def r13_initial_value_verbatim(ctx, rep):
+    """the initial value is documented as declared: nothing rewrites the text after the character literals were put back
+    (shared with C18.R2 / C02.R7)"""
+    from . import c18
+    c18.r2_no_transform_after_restore(ctx, rep)
+
+
 RULES = [
     RuleSpec("C01.R5", r5_character_slots, "character selector slots are filled at most once", floor=2),
     RuleSpec("C01.R1", r1_case_neutral, "case-neutral recognition", floor=24),
@@ -877,4 +919,5 @@ RULES = [
     RuleSpec("C01.R6", r6_order_bearing_collections, "order-bearing collections are never sorted", floor=2),
     RuleSpec("C01.R11", r11_two_word_types, "two-word type keywords are normalised in every spelling", floor=2),
     RuleSpec("C01.R12", r12_template_name_comparisons, "templates compare names case-insensitively", floor=1),
+    RuleSpec("C01.R13", r13_initial_value_verbatim, "initial values are not rewritten after their literals were put back (shared with C18.R2)", floor=2),
 ]
